@@ -22,8 +22,8 @@ import warnings
 from .. import tlc
 from ..common import VERIF
 
-INVS = ["InvReadBack", "InvOnce", "InvSkipsKept", "InvSavedIsCurrent", "InvCheck"]
-PROPS = ["FailuresChangeNothing", "UntouchedOrder"]
+INVS = ["InvReadBack", "InvOnce", "InvSkipsKept", "InvSavedIsCurrent", "InvCheck", "InvForeignStamp"]
+PROPS = ["FailuresChangeNothing", "UntouchedOrder", "ForeignLoadForgets"]
 COMMENTS = {1: b"# first comment\n", 2: b"   # indented comment \xc3\xa9\n", 3: b"# off:\rghost:opaquehashtext1\n"}      # (a bare CR does not end a line)
 RAW = {"raw1": "opaquehashtext1", "raw2": "$opaque$2"}
 
@@ -206,6 +206,14 @@ def call(G, f, st, path, stamp):
             r = f.load()
         elif op == "load_if_changed":
             r = f.load_if_changed()
+        elif op == "load_other":
+            other = path + ".other"
+            with open(other, "wb") as fh:
+                fh.write(G.content(arg))
+            try:
+                r = f.load(other if rnd.random() < .7 else os.fsencode(other))
+            finally:
+                os.unlink(other)
         elif op == "load_string":
             data = G.content(arg)
             f.load_string(data if rnd.random() < .5 else data.decode(G.enc))
@@ -322,7 +330,7 @@ def run(chk):
     r = tlc.run_instance("MC_HtFile", consts, name="C16_mc", invariants=INVS, properties=PROPS, action_constraint="Emit", view="View",
                          timeout=3000)
     chk.add_tlc("MC_HtFile exhaustive", r)
-    for a in ("SetPasswordA", "SetHashA", "DeleteA", "CheckPasswordA", "SaveA", "LoadA", "LoadIfChangedA", "ExternalWriteA", "LoadStringA"):
+    for a in ("SetPasswordA", "SetHashA", "DeleteA", "CheckPasswordA", "SaveA", "LoadA", "LoadIfChangedA", "ExternalWriteA", "LoadStringA", "LoadOtherA"):
         if r.coverage.get(a, (0, 0))[1] == 0:
             raise tlc.MachineryError(f"vacuity: {a} never taken")
     consts.update(DoEmit=True, MaxOps=12)
